@@ -642,6 +642,8 @@ func ruleC20(c *Ctx) {
 				if rs, ok := x.(*ast.RangeStmt); ok {
 					if se, ok := ast.Unparen(rs.X).(*ast.SelectorExpr); ok && se.Sel.Name == "Postings" {
 						inner = rs
+					} else if t := info.TypeOf(rs.X); t != nil && strings.HasSuffix(types.TypeString(t, nil), "[]"+modPath+"/internal/ast.Posting") {
+						inner = rs // a local holding the transaction's postings
 					}
 				}
 				return true
@@ -687,7 +689,7 @@ func ruleC20(c *Ctx) {
 			calcs = append(calcs, calc{fd, strings.Join(descs, " ;; ")})
 		}
 	}
-	c.census("T10", "account-balance calculators", len(calcs)+nDelegating, 2)
+	c.census("T10", "account-balance calculators", len(calcs)+nDelegating, 1)
 	c.census("T10", "account-balance calculators with a posting loop", len(calcs), 1)
 	for i := 1; i < len(calcs); i++ {
 		c.check(calcs[i].body == calcs[0].body && calcs[0].body != "", "T10", c.P.declName(calcs[i].fd), "same posting aggregation as sibling", calcs[i].fd.Pos(),
@@ -1519,6 +1521,21 @@ func ruleT11(c *Ctx) {
 	}
 	ok1, incl := false, false
 	fns := append([]*ssa.Function{rn}, rn.AnonFuncs...)
+	// ... and the helpers of the package the handler hands the locations to
+	for _, b := range rn.Blocks {
+		for _, ins := range b.Instrs {
+			if call, ok := ins.(*ssa.Call); ok {
+				if cal := call.Call.StaticCallee(); cal != nil && cal.Pkg == rn.Pkg && cal.Blocks != nil {
+					for _, a := range call.Call.Args {
+						if isLocSlice(a.Type()) {
+							fns = append(fns, cal)
+						}
+					}
+				}
+			}
+		}
+	}
+	ciT11 := buildConc(c)
 	for _, f := range fns {
 		for _, b := range f.Blocks {
 			for _, ins := range b.Instrs {
@@ -1537,7 +1554,7 @@ func ruleT11(c *Ctx) {
 				}
 				keyBase := locBase(stripConv(mu.Key))
 				rangeOK, textOK := false, false
-				for v := range backSlice(mu.Value) {
+				for v := range sliceUp(ciT11, mu.Value, f) {
 					if p, ok := locPath(v); ok && p == "Range" && locBase(v) == keyBase {
 						rangeOK = true
 					}
@@ -1556,7 +1573,7 @@ func ruleT11(c *Ctx) {
 					ok1 = true
 				}
 				// the locations come from a collector asked to include declarations
-				for v := range backSlice(mu.Key) {
+				for v := range sliceUp(ciT11, mu.Key, f) {
 					if call, ok := v.(*ssa.Call); ok && isLocSlice(call.Type()) {
 						for _, a := range call.Common().Args {
 							if k, ok := a.(*ssa.Const); ok && k.Value != nil && k.Value.Kind() == constant.Bool && constant.BoolVal(k.Value) {
@@ -2334,10 +2351,63 @@ func balanceAddSites(c *Ctx, f *ssa.Function) []balanceAddSite {
 						}
 					}
 				}
+				guarded := false
+				if amountPtr == nil {
+					// the quantity is a parameter of a helper (`balances.add(account, commodity, quantity)`): it is read from
+					// the posting at the helper's call sites, where the nil test sits as well
+					for _, a := range call.Common().Args {
+						prm, isParam := stripConv(a).(*ssa.Parameter)
+						if !isParam || prm.Parent() != g {
+							continue
+						}
+						idx := -1
+						for i, q := range g.Params {
+							if q == prm {
+								idx = i
+							}
+						}
+						sites := (cgView{c}).callersOf(g)
+						all := len(sites) > 0 && idx >= 0
+						for _, site := range sites {
+							okSite := false
+							if idx < len(site.Common().Args) {
+								for v := range backSlice(site.Common().Args[idx]) {
+									fa, ok := v.(*ssa.FieldAddr)
+									if !ok {
+										continue
+									}
+									bt := fa.X.Type().Underlying().(*types.Pointer).Elem()
+									if !typeHasSuffix(bt, "/ast.Amount") || bt.Underlying().(*types.Struct).Field(fa.Field).Name() != "Quantity" {
+										continue
+									}
+									amountPtr = fa.X
+									for _, cc := range controlCondsPol(site.Block()) {
+										bo, ok := cc.Cond.(*ssa.BinOp)
+										if !ok {
+											continue
+										}
+										isNil := func(x, y ssa.Value) bool {
+											k, isK := y.(*ssa.Const)
+											return isK && k.IsNil() && (x == fa.X || sameLoad(x, fa.X))
+										}
+										if (isNil(bo.X, bo.Y) || isNil(bo.Y, bo.X)) && ((bo.Op == token.NEQ && cc.Taken) || (bo.Op == token.EQL && !cc.Taken)) {
+											okSite = true
+										}
+									}
+								}
+							}
+							if !okSite {
+								all = false
+							}
+						}
+						if amountPtr != nil {
+							guarded = all
+						}
+					}
+				}
 				if amountPtr == nil {
 					continue
 				}
-				guarded := false
 				for _, cc := range controlCondsPol(blk) {
 					bo, ok := cc.Cond.(*ssa.BinOp)
 					if !ok {
